@@ -218,7 +218,7 @@ class C20(PropCheck):
     id = 'C20'
     extractors = (fetch_sites.generate, url_tables.generate)
     modules = ('WpModel.Props.C20', 'WpModel.Props.C20Url', 'WpModel.Props.C20Trace', 'WpModel.Props.C20Absent', 'WpModel.Props.C20Bg',
-               'WpModel.Props.C20Svg', 'WpModel.Props.C20Paint', 'WpModel.Props.C20Tables', 'WpModel.Props.C20Once', 'WpModel.Props.C20Source',
+               'WpModel.Props.C20Svg', 'WpModel.Props.C20Paint', 'WpModel.Props.C20Tables', 'WpModel.Props.C20Once', 'WpModel.Props.C20Source', 'WpModel.Props.C20Catalog', 'WpModel.Props.C20Fonts',
                'WpModel.Witness.C20')
     trusted_base = (
         'modelled, not verified: urls.fetch, images.get_image_from_uri / RasterImage.__init__ (data source), '
